@@ -122,6 +122,8 @@ def check(case, col):
         if not len(solid) <= len(hap_scaffolds) <= len(tagged):
             problems.append(f"{len(hap_scaffolds)} haplotig scaffolds written for {len(tagged)} Haplotig pieces ({len(solid)} with an interior)")
     if problems:
+        if len(case["input"]) > 1:
+            problems.append(f"input scaffolds, in order: {[s['name'] for s in case['input']]}")
         col.fail("; ".join(problems), case)
     return (cuts, breaks, joins, len(hap_scaffolds))
 
